@@ -111,6 +111,69 @@ func VerifC12_RunActionWithTimeoutAndContext() {
 	}
 }
 
+var errVerifInterrupted = errors.New("verif: action interrupted")
+
+// VerifC12_RunActionWithParallelCheck: the cancellation runner whose stop
+// signal comes from a periodic check (or from the parent context). The check
+// gives up at its k-th call (period 4ms: at 0, 4, 8, 12ms, or never) against
+// every action duration around it; an action that is stopped may report the
+// context's error or an error of its own.
+func VerifC12_RunActionWithParallelCheck() {
+	verif.ExploreSchedules(1)
+	d := vActionDuration()
+	fails := verif.Bool("actionFails")
+	ownErrorOnStop := verif.Bool("stoppedActionReportsItsOwnError")
+	passes := []int{0, 1, 2, 3, 1 << 30}[verif.Choice("checksThatPass", 5)]
+	parent, cancelParent := context.WithCancel(context.Background())
+	defer cancelParent()
+	parentCase := verif.Choice("parent", 3) // live, cancelled before, cancelled during
+	if parentCase == 1 {
+		cancelParent()
+	}
+	var actionCtx context.Context
+	finished, sawDone, started := false, false, false
+	checks := 0
+	err := RunActionWithParallelCheck(parent, func(ctx context.Context) error {
+		started = true
+		actionCtx = ctx
+		if parentCase == 2 {
+			cancelParent()
+		}
+		select {
+		case <-ctx.Done():
+			sawDone = true
+			finished = true
+			if ownErrorOnStop {
+				return errVerifInterrupted
+			}
+			return ctx.Err()
+		case <-time.After(d):
+		}
+		finished = true
+		if fails {
+			return errVerifAction
+		}
+		return nil
+	}, func(context.Context) bool {
+		checks++
+		return checks <= passes
+	}, 4*time.Millisecond)
+	if parentCase == 1 {
+		verif.Assert("cancelled_parent_reported", commonerrors.Any(err, commonerrors.ErrCancelled) && !started)
+		return
+	}
+	verif.Assert("returned_after_action_ended", finished)
+	verif.Assert("action_context_is_done_on_exit", actionCtx != nil && actionCtx.Err() != nil)
+	if err == nil {
+		verif.Assert("nil_means_action_succeeded_unstopped", !fails && !sawDone)
+	} else if !commonerrors.Any(err, commonerrors.ErrTimeout, commonerrors.ErrCancelled) {
+		verif.Assert("own_error_only_from_an_unstopped_action", fails && !sawDone && err == errVerifAction)
+	}
+	if sawDone {
+		verif.Assert("stopped_action_reports_context_kind", err != nil && commonerrors.Any(err, commonerrors.ErrTimeout, commonerrors.ErrCancelled))
+	}
+}
+
 // VerifC12_Parallelise: once per argument, all results (as a multiset) or an
 // error that some invocation returned.
 func VerifC12_Parallelise() {
